@@ -176,3 +176,32 @@ def prefix_of(a, b):
         return z3.PrefixOf(a, b)
     th = _th(a)
     return z3.And(th.Len(a) <= th.Len(b), th.Eq(a, th.Take(b, th.Len(a))))
+
+
+def forall(vs, body, patterns=()):
+    """ForAll with the given patterns when z3 accepts them (no ite / connectives inside), else without."""
+    pats = [p for p in patterns if p is not None]
+    if pats:
+        try:
+            return z3.ForAll(vs, body, patterns=pats)
+        except z3.Z3Exception:
+            ok = []
+            for p in pats:
+                try:
+                    z3.ForAll(vs, body, patterns=[p])
+                    ok.append(p)
+                except z3.Z3Exception:
+                    pass
+            if ok:
+                return z3.ForAll(vs, body, patterns=ok)
+    return z3.ForAll(vs, body)
+
+
+def exists(vs, body, patterns=()):
+    pats = [p for p in patterns if p is not None]
+    if pats:
+        try:
+            return z3.Exists(vs, body, patterns=pats)
+        except z3.Z3Exception:
+            pass
+    return z3.Exists(vs, body)
